@@ -641,3 +641,69 @@ func fieldValuesOfResult(call *ssa.Call, idx, field, depth int) ([]ssa.Value, bo
 	}
 	return vals, true
 }
+
+// allCallSites: the static calls of f plus the calls made through package-level function
+// variables that only ever hold f (`var hook = f`, replaced in tests only).  ok is false when
+// f escapes in any other way.
+func allCallSites(p *Program, f *ssa.Function) (calls []ssa.CallInstruction, ok bool) {
+	holders := map[*ssa.Global]bool{}
+	for g := range p.AllFns {
+		if g.Blocks == nil || !fnInModule(g) {
+			continue
+		}
+		for _, b := range g.Blocks {
+			for _, ins := range b.Instrs {
+				if call, isCall := ins.(ssa.CallInstruction); isCall && call.Common().StaticCallee() == f {
+					calls = append(calls, call)
+					continue
+				}
+				var ops []*ssa.Value
+				for _, op := range ins.Operands(ops) {
+					if op == nil || *op != ssa.Value(f) {
+						continue
+					}
+					st, isStore := ins.(*ssa.Store)
+					gl, isGlobal := (ssa.Value)(nil), false
+					if isStore {
+						gl, isGlobal = st.Addr, false
+						if _, okG := st.Addr.(*ssa.Global); okG {
+							isGlobal = true
+						}
+					}
+					if !isStore || !isGlobal || st.Val != ssa.Value(f) {
+						return nil, false
+					}
+					holders[gl.(*ssa.Global)] = true
+				}
+			}
+		}
+	}
+	for h := range holders {
+		for _, ins := range globalRefs(p, h) {
+			switch x := ins.(type) {
+			case *ssa.Store:
+				if x.Val != ssa.Value(f) {
+					return nil, false // the variable can hold another function
+				}
+			case *ssa.UnOp:
+				// every use of the loaded value is a call of it
+				if x.Referrers() == nil {
+					continue
+				}
+				for _, r := range *x.Referrers() {
+					call, isCall := r.(ssa.CallInstruction)
+					if !isCall || call.Common().Value != ssa.Value(x) {
+						if _, isDbg := r.(*ssa.DebugRef); isDbg {
+							continue
+						}
+						return nil, false
+					}
+					calls = append(calls, call)
+				}
+			default:
+				return nil, false
+			}
+		}
+	}
+	return calls, true
+}
